@@ -665,6 +665,12 @@ func dirEnsured(c *Check, fn *ssa.Function, d dirExpr, at ssa.Instruction, depth
 			}
 		}
 	}
+	// the directory is read from a field of a work-list frame: every value stored into that field is ensured
+	if d.Dir != nil {
+		if ok, why, handled := dirFieldEnsured(c, fn, d.Dir, depth); handled {
+			return ok, why
+		}
+	}
 	// the directory is (derived 1:1 from) a parameter: induct over call sites
 	var dirVal ssa.Value = d.Dir
 	if dirVal == nil {
@@ -714,6 +720,79 @@ func dirEnsured(c *Check, fn *ssa.Function, d dirExpr, at ssa.Instruction, depth
 	return false, "no dominating MkdirAll of the parent directory in " + c.P.FuncName(fn)
 }
 
+// dirFieldEnsured: v is read from field F of a first-party struct (a frame of an explicit work list, say).
+// The field holds an existing directory if every store into T.F anywhere stores a value that is an ensured
+// directory at the point of the store (created by MkdirAll before, or a parameter ensured at the call
+// sites). handled is false when v is not such a field read.
+func dirFieldEnsured(c *Check, fn *ssa.Function, v ssa.Value, depth int) (ok bool, why string, handled bool) {
+	var key engine.FieldKey
+	found := false
+	for _, o := range engine.Origins(v) {
+		switch x := o.(type) {
+		case *ssa.UnOp:
+			if fa, isFA := x.X.(*ssa.FieldAddr); isFA {
+				key, found = engine.FieldKeyOf(fa.X.Type(), fa.Field), true
+			}
+		case *ssa.Field:
+			key, found = engine.FieldKeyOf(x.X.Type(), x.Field), true
+		}
+	}
+	if !found || !strings.HasPrefix(key.T, "output/handlers.") {
+		return false, "", false
+	}
+	stores := storesToField(c, key)
+	if len(stores) == 0 || depth > 4 {
+		return false, "no store into " + key.String() + " found", true
+	}
+	for _, st := range stores {
+		sfn := st.Parent()
+		// a pseudo call position: the store itself
+		okStore := false
+		for _, m := range callsNamed(sfn, "os.MkdirAll") {
+			x := m.Common().Args[0]
+			if sameVar(x, st.Val) || engine.ExprKey(x) == engine.ExprKey(st.Val) {
+				if r, _ := engine.PathExists(sfn, nil, engine.IsInstr(st), engine.PathQuery{CutInstr: engine.IsInstr(m)}); !r {
+					if r2, _ := engine.PathExists(sfn, m, engine.IsInstr(st), engine.PathQuery{CutEdge: engine.NilErrEdgesOf(m)}); !r2 {
+						okStore = true
+					}
+				}
+			}
+		}
+		if !okStore {
+			// a parameter of the storing function: ensured at its call sites
+			for _, o := range engine.Origins(st.Val) {
+				if prm, isP := o.(*ssa.Parameter); isP {
+					idx := -1
+					for i, p := range sfn.Params {
+						if p == prm {
+							idx = i
+						}
+					}
+					callers := c.G.CallersOf(sfn)
+					all := idx >= 0 && len(callers) > 0
+					for _, cs := range callers {
+						args := cs.Common().Args
+						if len(args) != len(sfn.Params) {
+							all = false
+							continue
+						}
+						if okc, _ := dirIsEnsuredValue(c, cs.Parent(), args[idx], cs, depth+1); !okc {
+							all = false
+						}
+					}
+					if all {
+						okStore = true
+					}
+				}
+			}
+		}
+		if !okStore {
+			return false, "a value stored into " + key.String() + " at " + c.P.InstrPos(st) + " is not a directory known to exist", true
+		}
+	}
+	return true, "every path stored into " + key.String() + " was created (MkdirAll) or handed in as an existing directory", true
+}
+
 // dirIsEnsuredValue: value v (a directory path) exists at `at`: MkdirAll(v)
 // succeeded before, or v is a parameter ensured at every call site.
 func dirIsEnsuredValue(c *Check, fn *ssa.Function, v ssa.Value, at ssa.CallInstruction, depth int) (bool, string) {
@@ -727,6 +806,9 @@ func dirIsEnsuredValue(c *Check, fn *ssa.Function, v ssa.Value, at ssa.CallInstr
 				return true, ""
 			}
 		}
+	}
+	if ok, why, handled := dirFieldEnsured(c, fn, v, depth); handled {
+		return ok, why
 	}
 	for _, o := range engine.Origins(v) {
 		prm, ok := o.(*ssa.Parameter)
